@@ -412,7 +412,10 @@ def check(mod, tier="quick", seed=0, replay=None):
 
         if ok_bad:
             report_ok_violation(ok_bad, cases, obs, trees)
-        only_corr = [i for i in corr_bad if i not in set(ok_bad)]
+        # A disagreement between model and implementation counts even when the same case is also a listed
+        # known finding: the models mirror the code as it is (known defects included), so corr_bad means
+        # the code moved away from the model.
+        only_corr = list(corr_bad)
         broken = None
         if not thm_ok:
             broken = "theorem file " + mod.THEOREMS + ": " + json.dumps(thms)
